@@ -4,6 +4,7 @@ import copy
 import hashlib
 import io
 import json
+import os
 import tempfile
 from pathlib import Path
 
@@ -224,17 +225,35 @@ def run(ctx):
     for _ in range(n_pool):
         c = gen_cfg(rng, rng.choice(["matched", "unmatched"]))
         p, r = impl.rand_pair(rng, max_side=6, max_inst=4)
+        if c["input"] == "unmatched" and p.any() and rng.random() < 0.7:
+            # the prediction numbers its instances independently of the reference
+            labs = [int(x) for x in np.unique(p) if x]
+            new = rng.sample(range(1, 12), len(labs))
+            p = sum((np.where(p == l, n, 0) for l, n in zip(labs, new)), np.zeros_like(p)).astype(p.dtype)
         common.serial_pool(True)
         a = canon_out(impl.evaluate(impl.make_evaluator(c), p.copy(), r.copy()))
         common.serial_pool(False)
         try:
             b = canon_out(impl.evaluate(impl.make_evaluator(c), p.copy(), r.copy()))
+            # the same with the process confined to ONE cpu (cpuset containers, taskset, one-core runners): how many workers the
+            # machine offers must not matter either
+            b1 = b
+            if hasattr(os, "sched_setaffinity"):
+                allowed = os.sched_getaffinity(0)
+                try:
+                    os.sched_setaffinity(0, {sorted(allowed)[0]})
+                    b1 = canon_out(impl.evaluate(impl.make_evaluator(c), p.copy(), r.copy()))
+                finally:
+                    os.sched_setaffinity(0, allowed)
         finally:
             common.serial_pool(True)
         ctx.count({"pool": True, "cfg": c, "pred": p.tolist(), "ref": r.tolist()}, True)
         ctx.bump("serial-vs-pool")
         if a != b:
             ctx.violation("serial and multiprocessing-pool evaluation differ", {"cfg": c, "pred": p, "ref": r, "serial": a, "pool": b})
+        elif a != b1:
+            ctx.violation("evaluation with the process confined to one cpu differs from the evaluation on all cpus",
+                          {"cfg": c, "pred": p, "ref": r, "serial": a, "pool": b1, "one_cpu": True})
 
 
 def replay(path):
